@@ -162,6 +162,30 @@ struct memory_page_node * get_memory_page_from_address(vm_mngr_t* vm_mngr, uint6
 	return NULL;
 }
 
+/*
+  Check that each byte of the @byte_size bytes wide access at @ad is mapped in
+  a page allowing @access. If not, raise EXCEPT_ACCESS_VIOL and return 0.
+*/
+static int check_multi_page_access(vm_mngr_t* vm_mngr, uint64_t ad, unsigned int byte_size, unsigned int access)
+{
+	struct memory_page_node * mpn;
+	unsigned int i;
+
+	for (i = 0; i < byte_size; i++) {
+		mpn = get_memory_page_from_address(vm_mngr, ad + i, 1);
+		if (!mpn)
+			return 0;
+		if ((mpn->access & access) == 0){
+			fprintf(stderr, "access to non %s page!! %"PRIX64"\n",
+				access == PAGE_READ ? "readable" : "writable",
+				ad + i);
+			vm_mngr->exception_flags |= EXCEPT_ACCESS_VIOL;
+			return 0;
+		}
+	}
+	return 1;
+}
+
 static uint64_t memory_page_read(vm_mngr_t* vm_mngr, unsigned int my_size, uint64_t ad)
 {
 	struct memory_page_node * mpn;
@@ -219,6 +243,9 @@ static uint64_t memory_page_read(vm_mngr_t* vm_mngr, unsigned int my_size, uint6
 	else{
 		unsigned int new_size = my_size;
 		int index = 0;
+		/* Fault before reading if a byte is missing or not readable */
+		if (!check_multi_page_access(vm_mngr, ad, my_size / 8, PAGE_READ))
+			return 0;
 		while (new_size){
 			mpn = get_memory_page_from_address(vm_mngr, ad, 1);
 			if (!mpn)
@@ -303,6 +330,9 @@ static void memory_page_write(vm_mngr_t* vm_mngr, unsigned int my_size,
 	}
 	/* write is multiple page wide */
 	else{
+		/* Fault before writing if a byte is missing or not writable */
+		if (!check_multi_page_access(vm_mngr, ad, my_size / 8, PAGE_WRITE))
+			return;
 		switch(my_size){
 
 		case 8:
